@@ -379,6 +379,25 @@ class Harness:
         raw.take()
         return cls(r, rg, raw, server_conn, raw_conn, models)
 
+    async def reconnect(self, raw_central: bool, who_disconnects: str = 'raw'):
+        """Drop the LE link (from either end) and make a new one: a NEW connection, whose fixed bearer
+        starts again at the default ATT_MTU with no subscriptions; enhanced bearers died with the link."""
+        conn = self.raw_conn if who_disconnects == 'raw' else self.server_conn
+        await vloop.vwait(conn.disconnect())
+        await self.rg.quiesce()
+        for b in self.eatt:
+            b.dead = True
+        self.eatt = []
+        if raw_central:
+            self.raw_conn, self.server_conn = await self.rg.connect_le(1, 0)
+        else:
+            self.server_conn, self.raw_conn = await self.rg.connect_le(0, 1)
+        await self.rg.quiesce()
+        self.fixed.dead = True
+        self.old_fixed_rx = getattr(self, 'old_fixed_rx', []) + self.fixed.rx
+        self.fixed = FixedBearer(self)
+        return self.fixed
+
     def _on_pdu(self, _handle, cid, payload):
         if cid == ATT_CID:
             self.fixed.on_pdu(payload)
@@ -497,8 +516,9 @@ class Harness:
         wire = [p for (_s, _d, _dir, _h, cid, p) in vrig.l2cap_log(self.rg.hci_log, dev=0, direction=vrig.H2C)
                 if cid == ATT_CID]
         r.ev('oracle_evals')
-        if wire != self.fixed.rx:
+        seen = getattr(self, 'old_fixed_rx', []) + self.fixed.rx
+        if wire != seen:
             r.bad('harness/wire-log-mismatch',
-                  f'{len(wire)} ATT PDUs left device 0 on CID 4, raw peer saw {len(self.fixed.rx)}')
+                  f'{len(wire)} ATT PDUs left device 0 on CID 4, raw peer saw {len(seen)}')
         r.ev('stack_exceptions', len(self.rg.exceptions))
         return list(self.rg.exceptions)
